@@ -26,7 +26,7 @@ def generate(seed, tier):
     name, mod = g.pick(FAMILIES)
     sub = mod.generate(g.int(0, 1 << 60), tier)
     for _ in range(8):
-        if not sub.get('race'):
+        if not sub.get('race') and not sub.get('two_objects'):
             break
         sub = mod.generate(g.int(0, 1 << 60), tier)      # multi-actor families are schedules (C06 decides those per implementation), not pairs
     scn = copy.deepcopy(sub['scn'])
